@@ -16,9 +16,17 @@
              3                  save and re-open (identity on the model state)
              4                  access core_properties only
     Every op first accesses Package.core_properties.  Output: one record per op, joined
-    by semicolons: result, the 15 readings, the children, validity. *)
+    by semicolons: result, the 15 readings, the children, validity.
+
+    The codec of model/CorePropsCodec.v (docProps/core.xml as text):
+    [run_c18 (enc :: r :: children)]   r = 0 template root, 1 root of the default part; one field
+                                per child: tag index (15 + n: an undeclared child), xsi flag,
+                                no-text-node mark, then the text.  Output: the document as
+                                space-separated code points.
+    [run_c18 [dec; text]]       none when dec_core_r refuses the text, else the root kind, the
+                                15 readings, the children, validity. *)
 From V.lib Require Import Prelude Wire Calendar.
-From V.model Require Import CoreProps.
+From V.model Require Import CoreProps CorePropsCodec.
 
 Definition op_seq : str := [115; 101; 113]%N.
 Definition c_semi : N := 59%N.
@@ -122,6 +130,48 @@ Definition run_seq (hdr : str) (toks : list str) : str :=
   | [] => w_badcase
   end.
 
+(** ---- the codec ---- *)
+Definition op_enc : str := [101; 110; 99]%N.
+Definition op_dec : str := [100; 101; 99]%N.
+Definition w_none_lc : str := [110; 111; 110; 101]%N.
+
+Definition parse_wchild (f : str) : option (child * bool) :=
+  match f with
+  | ti :: x :: nt :: txt =>
+      let tag := match prop_of_idx ti with Some p => TProp p | None => TOther (ti - 15)%N end in
+      Some (mkChild tag txt (negb (N.eqb x 0)), negb (N.eqb nt 0))
+  | _ => None
+  end.
+
+Fixpoint parse_wchildren (fs : list str) : option (list (child * bool)) :=
+  match fs with
+  | [] => Some []
+  | f :: r =>
+      match parse_wchild f, parse_wchildren r with
+      | Some c, Some l => Some (c :: l)
+      | _, _ => None
+      end
+  end.
+
+Definition rootk_of (a : str) : option rootk :=
+  match a with
+  | [0%N] => Some RTemplate
+  | [1%N] => Some RDefault
+  | _ => None
+  end.
+
+Definition run_enc (a : str) (rest : list str) : str :=
+  match rootk_of a, parse_wchildren rest with
+  | Some r, Some w => show_str (enc_core_m r w)
+  | _, _ => w_badcase
+  end.
+
+Definition run_dec (text : str) : str :=
+  match dec_core_r text with
+  | Some (r, st) => fields ((match r with RTemplate => [48%N] | RDefault => [49%N] end) :: show_obs st)
+  | None => w_none_lc
+  end.
+
 Definition run_c18 (args : list str) : str :=
   match args with
   | op :: a :: rest =>
@@ -135,6 +185,8 @@ Definition run_c18 (args : list str) : str :=
         | _ => w_badcase
         end
       else if str_eqb op op_seq then run_seq a rest
+      else if str_eqb op op_enc then run_enc a rest
+      else if str_eqb op op_dec then (match rest with [] => run_dec a | _ => w_badcase end)
       else w_badcase
   | _ => w_badcase
   end.
